@@ -235,6 +235,55 @@ fn history(b: &mut Built) -> Vec<String> {
     t
 }
 
+/// A second differential history whose admission decisions DO depend on popularity
+/// (lookups of a key before the cache is half full, then a contest for room). Both sides
+/// of every comparison use the same fixed hasher, so equivalent configurations must still
+/// agree step by step.
+fn history2(b: &mut Built) -> Vec<String> {
+    let mut t: Vec<String> = Vec::new();
+    macro_rules! run {
+        ($c:expr, $sync:expr) => {{
+            let c = $c;
+            let _clock = c.verif_install_mock_clock();
+            for _ in 0..3 {
+                let hit = c.get(&K::probe(9)).is_some();
+                t.push(format!("h2:early-get9={hit}"));
+            }
+            $sync(&*c);
+            for i in 0..6u8 {
+                c.insert(K::new(i), V::new(i as u32 + 1, 1));
+                $sync(&*c);
+            }
+            for _ in 0..2 {
+                let hit = c.get(&K::probe(0)).is_some();
+                t.push(format!("h2:get0={hit}"));
+                $sync(&*c);
+            }
+            c.insert(K::new(9), V::new(300, 1));
+            $sync(&*c);
+            for i in [0u8, 1, 2, 3, 4, 5, 9] {
+                t.push(format!("h2:con{}={}", i, c.contains_key(&K::probe(i))));
+            }
+            for _ in 0..2 {
+                let hit = c.get(&K::probe(8)).is_some();
+                t.push(format!("h2:get8={hit}"));
+                $sync(&*c);
+            }
+            c.insert(K::new(8), V::new(301, 1));
+            $sync(&*c);
+            for i in [0u8, 1, 2, 3, 4, 5, 8, 9] {
+                t.push(format!("h2:con{}={}", i, c.contains_key(&K::probe(i))));
+            }
+            t.push(format!("h2:ec={},ws={}", c.entry_count(), c.weighted_size()));
+        }};
+    }
+    match b {
+        Built::U(c) => run!(&mut *c, |_c: &mini_moka::unsync::Cache<K, V, TableHasher>| {}),
+        Built::S(c) => run!(&mut *c, |c: &mini_moka::sync::Cache<K, V, TableHasher>| c.sync()),
+    }
+    t
+}
+
 pub struct CfgResult {
     pub configs: u64,
     pub steps: u64,
@@ -266,7 +315,11 @@ fn trace(k: &Knobs, h: TableHasher) -> Result<Vec<String>, String> {
     tracker().reset();
     catch_unwind(AssertUnwindSafe(|| {
         let mut b = build(k, h);
-        history(&mut b)
+        let mut t = history(&mut b);
+        drop(b);
+        let mut b2 = build(k, h);
+        t.extend(history2(&mut b2));
+        t
     }))
     .map_err(|p| panic_msg(&p))
 }
@@ -356,7 +409,7 @@ pub fn run() -> CfgResult {
         }
         // --- differential history
         let base = trace(k, hasher);
-        res.steps += 20;
+        res.steps += 50;
         let base = match base {
             Ok(t) => t,
             Err(m) => {
@@ -369,7 +422,7 @@ pub fn run() -> CfgResult {
             res.samples.push(format!("{} => {}", k.text(), base.join(" ")));
         }
         let mut cmp = |other: Knobs, what: &str, res: &mut CfgResult, sigs: &mut std::collections::HashSet<String>| {
-            res.steps += 20;
+            res.steps += 50;
             match trace(&other, hasher) {
                 Ok(t) if t == base => {}
                 Ok(t) => {
